@@ -1173,9 +1173,17 @@ def _while(ctx, eqn, ins):
     while True:
         nd = len(ctx.domain)
         ct = eval_jaxpr(ctx, cj, cc, list(cconsts) + carry)[0]
-        if ct.size != 1:
-            raise NotEncodable("while with non-scalar predicate")
-        c = ct.a.reshape(-1)[0]
+        pred_vec = None
+        if ct.ndim >= 1:
+            # batched predicate (vmap of while_loop): the loop runs while ANY example is active and an
+            # example whose predicate is false keeps its carried values (the predicate's shape is a
+            # prefix of every carry's shape) - jax/_src/lax/control_flow/loops.py, _while_lowering
+            pred_vec = ct
+            c = False
+            for e in ct.a.reshape(-1):
+                c = S.b_or(c, e)
+        else:
+            c = ct.a.reshape(-1)[0]
         if alive is not True:
             _guard(ctx, nd, alive)
         cur = S.b_and(alive, c)
@@ -1189,6 +1197,18 @@ def _while(ctx, eqn, ins):
             raise NotEncodable(f"while needs more than {max(ctx.unroll, 64)} iterations")
         nd = len(ctx.domain)
         new = eval_jaxpr(ctx, bj, bc, list(bconsts) + carry)
+        if pred_vec is not None:
+            masked = []
+            for old_t, nw_t in zip(carry, new):
+                if tuple(nw_t.shape[: pred_vec.ndim]) != tuple(pred_vec.shape):
+                    raise NotEncodable("batched while: carry without the predicate's leading dims")
+                pv = pred_vec.a.reshape(pred_vec.shape + (1,) * (nw_t.ndim - pred_vec.ndim))
+                pb = np.broadcast_to(pv, nw_t.shape)
+                out = np.empty(nw_t.shape, dtype=object)
+                for idx in np.ndindex(*nw_t.shape) if nw_t.shape else [()]:
+                    out[idx] = S.ite(pb[idx], nw_t.a[idx], old_t.a[idx], nw_t.kind)
+                masked.append(T(nw_t.dtype, out))
+            new = masked
         if S.is_sym(cur):
             _guard(ctx, nd, cur)
             carry = [
